@@ -291,6 +291,15 @@ pub fn run(ctx: &Ctx) -> Report {
                     };
                     ops.insert(1, Op::Scheme(v));
                 }
+                // ... and the spelling one level of string escaping away, in either direction
+                if p.contains(['"', '\\']) && stable_hash(&(&p, ops.len(), 8u8)) % 3 == 0 {
+                    let v = match stable_hash(&(&p, 10u8)) % 3 {
+                        0 => p.replace('\\', "\\\\").replace('"', "\\\""),
+                        1 => p.replace("\\\"", "\"").replace("\\\\", "\\"),
+                        _ => p.replace('\\', ""),
+                    };
+                    ops.insert(1, Op::Scheme(v));
+                }
             }
             // make repeats likely: sometimes render the first path again at the end
             if let Some(Op::Scheme(p)) = ops.first().cloned() {
